@@ -125,6 +125,10 @@ class Hostile:
         return 'unknown', 777
     # ---- input data / output buffers / scalars
     def inbuf(s, good=None):
+        lab, v = s._inbuf(good)      # the label follows the EFFECTIVE length: whatever produced it, an empty input is class '0'
+        n = (v.get('len', 0) if isinstance(v, dict) else len(v) // 2)
+        return (lab if (n > 0 or lab in ('0', 'null0')) else '0'), v
+    def _inbuf(s, good=None):
         r = s.rnd; c = r.randrange(9)
         if c == 0: return '0', ''
         if c == 1: return 'null0', {'null': True, 'len': 0}
@@ -150,6 +154,9 @@ class Hostile:
         if c == 2: return 'small', r.randrange(0, 16)
         return 'random', r.getrandbits(r.choice([8, 16, 31, 32, 64]))
     def pin(s, good):
+        lab, v = s._pin(good); n = (v.get('len', 0) if isinstance(v, dict) else len(v) // 2)
+        return (lab if (n > 0 or lab in ('0', 'null0')) else '0'), v
+    def _pin(s, good):
         r = s.rnd; c = r.randrange(8)
         if c == 0: return '0', ''
         if c == 1: return 'null0', {'null': True, 'len': 0}
